@@ -1,4 +1,5 @@
 import UF.Model.Regex
+import UF.Model.RegexQuirk
 /-
   `parseRE : Bytes → Option Re` – a model of `regexp/syntax.Parse(·, syntax.Perl)` for the subset
 
@@ -8,6 +9,15 @@ import UF.Model.Regex
 
   `none` = syntax error OR outside the subset (the driver answers `ood`; whenever the real parser
   reports an error the model must answer `none`, which the `re` correspondence family checks).
+
+  `parseCore` yields the TEXTBOOK tree of the text.  Go does not always compile the textbook reading
+  (REVIEW2 F3): `parser.factor` merges the leading one-rune literals of adjacent alternation branches
+  with an equality that ignores the fold-case flag (`A.|[aA]` is compiled as `A(?:.|(?:))`).  `parseRE`
+  therefore answers with GO's tree: under a leading `(?i)` all flags are set and nothing diverges
+  (`foldCase`); a case-sensitive text goes through `goTree` (UF/Model/RegexQuirk.lean), which is the
+  identity unless the expression contains a source of case-folded literals (`Re.hazard`: a class `[xX]`,
+  an alternation `x|X`), replays Go's factoring otherwise, and answers `none` (outside the domain) for such
+  an expression when its text has a non-capturing group `(?:` or a non-greedy counted repetition `}?`.
 
   The parser is a LEFT FOLD over the bytes (`List.foldlM step`) with an explicit stack of open
   groups, as Go's own parser is – not recursive descent – so that
@@ -283,9 +293,25 @@ def parseCore (p : Bytes) : Option Re := (run initState p).bind finish
 
 def ciPrefix : Bytes := [40, 63, 105, 41]   -- "(?i)"
 
-/-- `syntax.Parse(p, syntax.Perl)` for the subset; a leading `(?i)` folds the whole expression. -/
+def ncgText : Bytes := [40, 63, 58]        -- "(?:"
+def lazyRepText : Bytes := [125, 63]       -- "}?"
+
+/-- Go's tree of a case-sensitive expression with the text `p` and the textbook tree `r` (group P3,
+    UF/Model/RegexQuirk.lean).  Without a source of case-folded literals (`hazard`) it IS the textbook
+    tree.  Otherwise `parser.factor` may merge a case-sensitive literal with a case-folded one
+    (`Regexp.Equal` ignores the flag): `quirkTree` replays it — unless the text has a non-capturing
+    group or a non-greedy counted repetition, whose effect on the grouping the tree `r` does not
+    determine (`none`: outside the modelled domain). -/
+def goTree (p : Bytes) (r : Re) : Option Re :=
+  if !r.hazard then some r
+  else if Bytes.hasSub p ncgText || Bytes.hasSub p lazyRepText then none
+  else quirkTree r
+
+/-- `syntax.Parse(p, syntax.Perl)` for the subset; a leading `(?i)` folds the whole expression (every
+    literal then carries the fold flag and Go's simplifications preserve the language); a
+    case-sensitive expression goes through `goTree`. -/
 def parseRE (p : Bytes) : Option Re :=
-  if Bytes.hasPrefix p ciPrefix then (parseCore (p.drop 4)).map foldCase else parseCore p
+  if Bytes.hasPrefix p ciPrefix then (parseCore (p.drop 4)).map foldCase else (parseCore p).bind (goTree p)
 
 /-- Group G's key lemma: parsing a concatenation = parsing the first part, then the second from the
     state reached. -/
@@ -315,7 +341,10 @@ def regexRuleText (pattern : Bytes) (matchCase : Bool) : Bytes :=
 
 /-- Model of `preparePattern` + `MatchString` for a rule pattern that is a `/regex/` (candidate for `Ext.pat`).
     `none`: not a regex pattern, non-ASCII target, or an expression outside the modelled subset
-    (which includes the invalid ones, for which Go answers `false`). Mask patterns: see group G. -/
+    (which includes the invalid ones, for which Go answers `false`, and — group P3 — `$match-case`
+    expressions with a source of case-folded literals AND a `(?:` / `}?` in the text). Mask patterns: see
+    group G.  For `$match-case` rules the expression searched is GO's tree (`goTree`), e.g.
+    `/A.|[aA]/$match-case` does not accept `a`. -/
 def regexPat (pattern : Bytes) (matchCase : Bool) (target : Bytes) : Option Bool :=
   if !isRegexPattern pattern || !Bytes.isAscii target then none
   else (Re.parseRE (regexRuleText pattern matchCase)).map fun r => Re.searchFast r target
